@@ -191,6 +191,8 @@ impl Debugger {
 
         // `HALT` and breakpoints should be already handled (above)
         loop {
+            #[cfg(lace_verif)]
+            crate::verif::inner_tick();
             match &mut self.status {
                 Status::WaitForAction => {
                     // Continue loop until action is given
